@@ -1784,6 +1784,76 @@ def _h_floor(ex, args, kwargs, pc, node):
     return _np_round_like(ex, args[0], pc, node, "floor")
 
 
+@handler(numpy.trunc, math.trunc)
+def _h_trunc(ex, args, kwargs, pc, node):
+    x = args[0]
+    if is_conc_num(x):
+        return x if isinstance(x, float) else Fl(math.trunc(Fraction(x)))
+    n = to_num(x)
+    alts = []
+    for g, t, ty in n.alts:
+        if isinstance(t, float):
+            alts.append((g, t, "float"))
+            continue
+        r = _as_real(t, ty)
+        alts.append((g, z3.ToReal(z3.If(r >= 0, z3.ToInt(r), -z3.ToInt(-r))), "float"))
+    return Num(alts)
+
+
+@handler(numpy.rint, numpy.round, numpy.around)
+def _h_rint(ex, args, kwargs, pc, node):
+    if len(args) > 1 or kwargs:
+        raise Unsupported("numpy.round with decimals", node)
+    r = _h_round(ex, [args[0], 0], {}, pc, node)
+    return _h_float(ex, [r], {}, pc, node)
+
+
+@handler(numpy.abs, numpy.absolute, numpy.fabs)
+def _h_npabs(ex, args, kwargs, pc, node):
+    return _h_abs(ex, args, kwargs, pc, node)
+
+
+@handler(numpy.maximum)
+def _h_npmaximum(ex, args, kwargs, pc, node):
+    a, b = args
+    c = _b(ex.truthy(ex.compare(ast.GtE, a, b, pc, node)))
+    return merge_values(c, a, b)
+
+
+@handler(numpy.minimum)
+def _h_npminimum(ex, args, kwargs, pc, node):
+    a, b = args
+    c = _b(ex.truthy(ex.compare(ast.LtE, a, b, pc, node)))
+    return merge_values(c, a, b)
+
+
+@handler(numpy.where)
+def _h_npwhere(ex, args, kwargs, pc, node):
+    c, a, b = args
+    t = ex.truthy(c)
+    if isinstance(t, bool):
+        return a if t else b
+    return merge_values(t, a, b)
+
+
+@handler(numpy.logical_and)
+def _h_land(ex, args, kwargs, pc, node):
+    a, b = args
+    return _boolval(mk_and(_b(ex.truthy(a)), _b(ex.truthy(b))))
+
+
+@handler(numpy.logical_or)
+def _h_lor(ex, args, kwargs, pc, node):
+    a, b = args
+    return _boolval(mk_or(_b(ex.truthy(a)), _b(ex.truthy(b))))
+
+
+@handler(numpy.logical_not)
+def _h_lnot(ex, args, kwargs, pc, node):
+    (a,) = args
+    return _boolval(mk_not(_b(ex.truthy(a))))
+
+
 @handler(numpy.searchsorted)
 def _h_searchsorted(ex, args, kwargs, pc, node):
     """Trusted contract: searchsorted(t, x, side) for a sorted concrete t is the number of
